@@ -66,6 +66,13 @@ def make_modes(ctx):
         dict(F("m2.xz", "m2", plain[:9000], plain), valid=False, init_ok=False),
         F("m3.xz", "m3", xzc(exact, preset=1), exact)], direction="d"))
     m.append(Mode("compress-exact-8k", [], [F("e.txt", "e.txt.xz", exact, exact)]))
+    # SIGPIPE inherited as ignored (service managers do that): xz installs no handler; a broken pipe is only an EPIPE
+    m.append(Mode("compress-stdout-sigpipe-ignored", ["-c"], [F("a.txt", None, plain, plain)], stdout=True, sigpipe_ignored=True))
+    m.append(Mode("decompress-stdout-sigpipe-ignored", ["-dc"], [F("a.xz", None, comp, plain)], direction="d", stdout=True,
+                  sigpipe_ignored=True))
+    # several files to standard output in one invocation: a file aborted half-way must not leak state into the next one
+    m.append(Mode("decompress-stdout-multi", ["-dc"], [F("p1.xz", None, xzc(tail_sparse, preset=1), tail_sparse),
+                                                          F("p2.xz", None, xzc(exact, preset=1), exact)], direction="d", stdout=True))
     if not quick:
         big = gen_text(rng, rng.randrange(550000, 650000))
         mid = gen_text(rng, 300000)
@@ -102,8 +109,12 @@ def enumerate_plans(ctx, mode, ref_events, rng):
             plans.append(Plan(faults={k: ("E", 13)}, tag="errno"))
         plans.append(Plan(crash=(k, "X"), tag="_exit"))
         plans.append(Plan(crash=(k, "K"), tag="SIGKILL"))
-        for s in L.SIGS:
+        sigs = [x for x in L.SIGS if not (mode.sigpipe_ignored and x == 13)]
+        for s in sigs:
             plans.append(Plan(sig=(k, s, False), tag="signal"))
+        if op == "write" and (mode.stdout or mode.stdin):
+            # the reader of the pipe went away (SIGPIPE handled by xz, or inherited as ignored)
+            plans.append(Plan(epipe=k, tag="EPIPE-sigpipe-ignored" if mode.sigpipe_ignored else "EPIPE+SIGPIPE"))
         if op in ("read", "write"):
             if e["ret"] >= 2:
                 plans.append(Plan(faults={k: ("S", rng.randrange(1, e["ret"]))}, tag="short"))
@@ -112,8 +123,8 @@ def enumerate_plans(ctx, mode, ref_events, rng):
             plans.append(Plan(faults={k: ("E", 11)}, tag="EAGAIN"))
             plans.append(Plan(faults={k: ("E", 11), k + 1: ("E", 4)}, tag="EAGAIN+poll-EINTR"))
             plans.append(Plan(faults={k: ("E", 11), k + 1: ("E", 5)}, tag="EAGAIN+poll-error"))
-            plans.append(Plan(faults={k: ("E", 11)}, sig=(k + 1, rng.choice(list(L.SIGS)), False), tag="EAGAIN+signal-in-poll"))
-            plans.append(Plan(sig=(k, rng.choice(list(L.SIGS)), True), tag="signal+EINTR"))
+            plans.append(Plan(faults={k: ("E", 11)}, sig=(k + 1, rng.choice(sigs), False), tag="EAGAIN+signal-in-poll"))
+            plans.append(Plan(sig=(k, rng.choice(sigs), True), tag="signal+EINTR"))
         if nfiles == 1:
             prev = flat[idx - 1] if idx else None
             toctou = op == "unlink" and prev is not None and prev["op"] in ("stat", "lstat")
@@ -171,13 +182,14 @@ def direct_oracle(mode, plan, res, ref_events):
     inj = [(r["op"], r["name"], r["inj"], r) for r in obs if r["inj"] != "-"]
     cleanup_faulted = any(op in ("stat", "lstat", "unlink", "fstat") and "E" in i for op, nm, i, _ in inj)
     moved = plan.move[1] if plan.move and any("M" in i for _, _, i, _ in inj) else None
-    signalled = any(("G" in i or "J" in i) for _, _, i, _ in inj)
+    signalled = any(("G" in i or "J" in i or ("P" in i and not mode.sigpipe_ignored)) for _, _, i, _ in inj)
     crashed = plan.crash is not None and L.observed_exit(res, plan) == "crash"
+    psig = plan.sig_eff(mode)
     hard = False
     for op, nm, i, r in inj:
         for part in i.split("+"):
-            if part.startswith("E"):
-                e = int(part[1:])
+            if part.startswith("E") or part.startswith("P"):
+                e = 32 if part.startswith("P") else int(part[1:])
                 tgt_is_dst = any(f["dst"] == nm for f in mode.files)
                 if op in ("read", "write", "poll") and e in L.RETRY:
                     continue
@@ -187,6 +199,15 @@ def direct_oracle(mode, plan, res, ref_events):
                 if op == "unlink" and mode.force and e != 2 and tgt_is_dst and not any(
                         o["op"] == "open" and o["name"] == nm and o["k"] < r["k"] for o in obs):
                     hard = True   # the unlink of --force before creating the target
+    # multi-file runs: which files were hit by an injection (None = cannot tell: directory, stdout)
+    hit = set()
+    for op, nm, i_, r in inj:
+        idxs = [j for j, g in enumerate(mode.files) if nm in (g["src"], g["dst"])]
+        if idxs:
+            hit.update(idxs)
+        else:
+            hit = None
+            break
     any_removed = False
     for idx, f in enumerate(mode.files):
         o = L.observed_fs(res, mode, idx, moved if idx == 0 else None)
@@ -206,6 +227,11 @@ def direct_oracle(mode, plan, res, ref_events):
             bad.append("%s: a skipped source was touched" % f["src"])
         if not src_ok:
             any_removed = True
+        # a fault that hit another file of the same invocation must not keep this one from being converted
+        if (len(mode.files) > 1 and hit is not None and idx not in hit and not crashed and not signalled and not moved
+                and mode.file_dest and not mode.skip and f.get("valid", mode.valid) and not mode.pre_target):
+            if not tgt_ok or (not mode.keep_eff and src_ok):
+                bad.append("%s: not converted although the injected fault hit another file of the run (state leaked between files)" % f["src"])
         if not f.get("valid", mode.valid) and not src_ok:
             bad.append("%s: invalid input, yet the source was removed" % f["src"])
         # R5: an existing target is never overwritten or removed without -f
@@ -231,6 +257,9 @@ def direct_oracle(mode, plan, res, ref_events):
         if not crashed and rc == 0 and mode.stdout and not mode.stdin and idx == 0 and len(mode.files) == 1:
             if "_out" not in files or not L.target_complete(mode, f, files["_out"][0]):
                 bad.append("exit status 0 but standard output is incomplete")
+    if not crashed and rc == 0 and mode.stdout and not mode.stdin and len(mode.files) > 1 and mode.direction == "d":
+        if "_out" not in files or files["_out"][0] != b"".join(f["plain"] for f in mode.files):
+            bad.append("exit status 0 but standard output is not the concatenation of the decoded files")
     # R3: a hard failure keeps every source of this run's failing file and gives a non-zero status
     if hard and not crashed:
         if rc in (0, 2) :
@@ -244,11 +273,13 @@ def direct_oracle(mode, plan, res, ref_events):
         if rc in (0, 2) or any_removed:
             bad.append("invalid input: exit status %s, source removed: %s" % (rc, any_removed))
     # R6: a delivered signal ends the process by that signal
-    if signalled and not crashed and plan.sig and rc != -plan.sig[1]:
-        bad.append("signal %d was delivered but xz ended with %s" % (plan.sig[1], rc))
-    if signalled and not crashed and plan.sig and len(mode.files) == 1 and not mode.stdin:
+    if signalled and not crashed and psig and rc != -psig[1]:
+        bad.append("signal %d was delivered but xz ended with %s" % (psig[1], rc))
+    if plan.epipe is not None and mode.sigpipe_ignored and not crashed and any("P" in i for _, _, i, _ in inj) and rc != 1:
+        bad.append("write failed with EPIPE while SIGPIPE is ignored, yet xz ended with %s instead of exit status 1" % rc)
+    if signalled and not crashed and psig and len(mode.files) == 1 and not mode.stdin:
         first_rw = next((e["k"] for e in flat if e["op"] in ("read", "write")), None)
-        if mode.direction == "c" and first_rw is not None and plan.sig[0] <= first_rw and any_removed:
+        if mode.direction == "c" and first_rw is not None and psig[0] <= first_rw and any_removed:
             bad.append("signal before the first read, yet the source was removed")
     if crashed is False and plan.crash and res["rc"] not in (0, 1, 2):
         pass
@@ -270,12 +301,13 @@ def model_lines(mode, plan, ref, observed_events):
         sched = [s if observed_events[i] else ref["sched"][i] for i, s in enumerate(sched)]
     else:
         sched = ref["sched"]
-    if plan.sig:
+    psig = plan.sig_eff(mode)
+    if psig:
         # which request of which file was in progress when the signal arrived (by the index arithmetic of this run)
         for i, evs in enumerate(observed_events):
             ops, owner, _ = L.derive_ops(evs, mode, mode.files[i])
-            if plan.sig[0] in owner:
-                sig_op = (i, locate(ops, owner[plan.sig[0]], sched[i][0]))
+            if psig[0] in owner:
+                sig_op = (i, locate(ops, owner[psig[0]], sched[i][0]))
         if sig_op is not None:
             i, j = sig_op
             n = len(sched[i][0])
@@ -288,7 +320,7 @@ def model_lines(mode, plan, ref, observed_events):
             ops, _, outreg = sched[i]
             skip = lay if (sig_op is not None and sig_op[0] == i) else ()
             specs.append(L.file_spec(mode, f, L.with_ticks(ops, skip), outreg))
-        lines.append("run %s %s files=%s" % (mode.flags(), plan.model_args(), "|".join(specs)))
+        lines.append("run %s %s files=%s" % (mode.flags(), plan.model_args(mode), "|".join(specs)))
     return lines
 
 
@@ -318,7 +350,7 @@ def compare(mode, plan, res, observed_events, model_out):
         if (mode.stdout or mode.stdin) and len(mode.files) == 1 and mfs["outsz"] != o["outsz"]:
             return "stdout size: model %s, xz %s" % (mfs["outsz"], o["outsz"])
     mexit = parts[-1].strip()[len("exit="):]
-    oexit = L.observed_exit(res, plan)
+    oexit = L.observed_exit(res, plan, mode)
     if mexit != oexit:
         return "exit: model %s, xz %s" % (mexit, oexit)
     return None
@@ -431,7 +463,7 @@ def run(ctx):
                 if rng.random() < 0.5:
                     cases.append((mode, Plan(faults={k1: ("E", rng.choice((5, 28, 4, 11))), k2: ("E", rng.choice((5, 13, 4)))}, tag="double-fault")))
                 else:
-                    cases.append((mode, Plan(faults={k1: ("E", rng.choice((5, 4, 11)))}, sig=(k2, rng.choice(list(L.SIGS)), False), tag="fault+signal")))
+                    cases.append((mode, Plan(faults={k1: ("E", rng.choice((5, 4, 11)))}, sig=(k2, rng.choice([x for x in L.SIGS if not (mode.sigpipe_ignored and x == 13)]), False), tag="fault+signal")))
     ctx.log("%d modes, %d runs of xz" % (len(modes), len(cases)))
     results = vlib.par_map(lambda mp: L.run_case(xz, so, mp[0], mp[1]), cases)
     # direct oracle + model lines
@@ -508,7 +540,7 @@ def search(ctx, xz, so, modes, refs):
         n = len(flat)
         for e in flat:
             if e["op"] in ("read", "write", "close", "fsync", "unlink", "lseek"):
-                for s in L.SIGS:
+                for s in [x for x in L.SIGS if not (mode.sigpipe_ignored and x == 13)]:
                     cases.append((mode, Plan(faults={e["k"]: ("E", 5)}, sig=(max(1, e["k"] - 1), s, False), tag="search")))
                 cases.append((mode, Plan(faults={e["k"]: ("S", 1), e["k"] + 1: ("E", 28)}, tag="search")))
                 cases.append((mode, Plan(faults={e["k"]: ("S", 1)}, crash=(e["k"] + 1, "K"), tag="search")))
